@@ -9,7 +9,7 @@ pub fn check(tier: Tier) -> Check {
         id: "C11",
         level: "exploration",
         rule: "One real node (serving or read-only) with 1..8 scripted contacts, every partition into \
-               always-answering and silent-from-t (t from 0 to hours), started with all contacts or with a \
+               always-answering and silent-from-t (t from 0 to hours; in a fifth of the runs every contact goes silent), started with all contacts or with a \
                single one (the others learnt by hearsay; fewer than 10 good nodes => periodic re-bootstrap), \
                world nodes keep or stop naming silent nodes, one-way latency < 10/100/240 ms, with and without \
                interleaved searches, 2..3 (quick) / 2..12 (thorough) virtual hours. load_contacts() is sampled \
@@ -23,16 +23,17 @@ pub fn check(tier: Tier) -> Check {
             "'arbitrarily long' is explored up to 12 virtual hours (about 48 ageing cycles)",
         ],
         deciding: vec!["C11"],
-        streams: vec![Stream::new("timeline", tier.pick(96, 600), |ctx, idx| {
+        streams: vec![Stream::new("timeline", tier.pick(320, 1200), |ctx, idx| {
             contacts::scenario(ctx, idx, "C11", "timeline")
         })
-        .budget(tier.pick(900.0, 3000.0), tier.pick(96, 300))],
+        .budget(tier.pick(900.0, 3000.0), tier.pick(320, 600))],
         require: vec![
-            ("c11_responsive_samples", tier.pick(500_000, 5_000_000)),
-            ("c11_silent_samples_past_deadline", tier.pick(100_000, 1_000_000)),
-            ("c11_responsive_contacts_followed", tier.pick(150, 1000)),
-            ("c11_silent_contacts_followed", tier.pick(100, 600)),
-            ("c11_probe_answers_past_deadline", tier.pick(500, 5000)),
+            ("c11_responsive_samples", tier.pick(1_500_000, 10_000_000)),
+            ("c11_runs_where_every_contact_goes_silent", tier.pick(20, 80)),
+            ("c11_silent_samples_past_deadline", tier.pick(400_000, 2_000_000)),
+            ("c11_responsive_contacts_followed", tier.pick(400, 1500)),
+            ("c11_silent_contacts_followed", tier.pick(300, 1200)),
+            ("c11_probe_answers_past_deadline", tier.pick(1500, 8000)),
         ],
         exhaustive: false,
     }
